@@ -95,7 +95,7 @@ impl GFb127 {
     #[inline(always)]
     pub fn xor_bit(&mut self, k: usize, val: u32) {
         let mut x = self.to_limbs();
-        x[k >> 6] ^= ((val & 1) as u64) << (k & 64);
+        x[k >> 6] ^= ((val & 1) as u64) << (k & 63);
         *self = Self::from_w64le(x[0], x[1]);
     }
 
